@@ -2,6 +2,7 @@
 from __future__ import annotations
 
 import ast
+import re
 from typing import Dict, List, Optional
 
 from .. import lin, paths
@@ -79,27 +80,60 @@ class NotEvaluable(Exception):
     pass
 
 
+def eval_guard_value(n: ast.AST, binding):
+    """value of a simple expression over a representative binding"""
+    val = lambda x: eval_guard_value(x, binding)   # noqa: E731
+    if isinstance(n, ast.Constant):
+        return n.value
+    t = ast.unparse(n)
+    try:
+        return binding(t)
+    except KeyError:
+        pass
+    if isinstance(n, ast.Tuple):
+        return tuple(val(e) for e in n.elts)
+    if isinstance(n, (ast.List, ast.Set)):
+        return [val(e) for e in n.elts]
+    if isinstance(n, ast.Call) and isinstance(n.func, ast.Name) and not n.keywords:
+        f = n.func.id
+        try:
+            if f == 'len' and len(n.args) == 1:
+                return len(val(n.args[0]))
+            if f == 'callable' and len(n.args) == 1:
+                return callable(val(n.args[0]))
+            if f == 'hasattr' and len(n.args) == 2 and isinstance(n.args[1], ast.Constant):
+                return hasattr(val(n.args[0]), n.args[1].value)
+            if f in ('bool', 'abs') and len(n.args) == 1:
+                return {'bool': bool, 'abs': abs}[f](val(n.args[0]))
+        except TypeError:
+            raise NotEvaluable('comparison of incomparable values')
+    if isinstance(n, ast.Call) and isinstance(n.func, ast.Attribute) and n.func.attr in ('upper', 'lower', 'strip', 'title', 'casefold') \
+            and not n.args and not n.keywords:
+        recv = val(n.func.value)
+        if isinstance(recv, str):
+            return getattr(recv, n.func.attr)()
+        raise NotEvaluable('comparison of incomparable values')       # AttributeError for a non-string: the expression itself rejects the value
+    if isinstance(n, ast.BinOp) and isinstance(n.op, (ast.Add, ast.Sub)):
+        try:
+            a, b = val(n.left), val(n.right)
+            return a + b if isinstance(n.op, ast.Add) else a - b
+        except TypeError:
+            raise NotEvaluable('comparison of incomparable values')
+    if isinstance(n, ast.Name) and n.id in ('int', 'float', 'str', 'bool', 'list', 'tuple'):
+        return {'int': int, 'float': float, 'str': str, 'bool': bool, 'list': list, 'tuple': tuple}[n.id]
+    if isinstance(n, ast.UnaryOp) and isinstance(n.op, ast.USub):
+        return -val(n.operand)
+    if isinstance(n, ast.Call) and isinstance(n.func, ast.Name) and n.func.id == 'type' and len(n.args) == 1:
+        return type(val(n.args[0]))
+    raise NotEvaluable(t)
+
+
+
 def eval_guard(test: ast.AST, binding) -> bool:
     """Truth of a validation guard for one representative value: `binding(expr_text)` gives the value of the names / attribute chains it
     knows (raise KeyError otherwise).  Only isinstance, comparisons with literals, not / and / or are interpreted - enough to decide
     whether a guard rejects a class of values, whatever way it is spelled."""
-    def val(n):
-        if isinstance(n, ast.Constant):
-            return n.value
-        t = ast.unparse(n)
-        try:
-            return binding(t)
-        except KeyError:
-            pass
-        if isinstance(n, ast.Tuple):
-            return tuple(val(e) for e in n.elts)
-        if isinstance(n, ast.Name) and n.id in ('int', 'float', 'str', 'bool', 'list', 'tuple'):
-            return {'int': int, 'float': float, 'str': str, 'bool': bool, 'list': list, 'tuple': tuple}[n.id]
-        if isinstance(n, ast.UnaryOp) and isinstance(n.op, ast.USub):
-            return -val(n.operand)
-        if isinstance(n, ast.Call) and isinstance(n.func, ast.Name) and n.func.id == 'type' and len(n.args) == 1:
-            return type(val(n.args[0]))
-        raise NotEvaluable(t)
+    val = lambda x: eval_guard_value(x, binding)   # noqa: E731
 
     def ev(n):
         if isinstance(n, ast.BoolOp):
@@ -201,3 +235,92 @@ def range_guard_ok(test, edges, accept: bool) -> bool:
         return True
     except NotEvaluable:
         return False
+
+
+# ------------------------------------------------------------------------------------------------ abstract run of a validation
+def abstract_rejects(p: Project, ci, fi: FuncInfo, env: dict, must: bool, _depth=0, _seen=None) -> bool:
+    """Abstractly run the statements of `fi` for ONE representative configuration `env` (expression text -> plain value): does the function reject
+    it (raise, or fail an assert)?  Tests that can be evaluated over `env` choose their branch; a test that cannot be evaluated explores both branches
+    (`must`: rejected only if both reject; otherwise: if either does).  A `raise` counts only under a test that mentions a key of `env` (an unrelated
+    `raise ValueError("no edge available")` deeper in a process body is not a validation of this quantity); an `assert` counts when its own test mentions one.
+    Nothing of the repository is executed: only literals, comparisons, isinstance/len/callable/hasattr on the representative values are interpreted."""
+    env = dict(env)
+    keys = set(env)
+    meths = p.methods(ci.key) if ci is not None else {}
+    seen = _seen if _seen is not None else {fi.name}
+
+    def bind(t):
+        if t in env:
+            return env[t]
+        raise KeyError(t)
+
+    def mentions(n):
+        t = ast.unparse(n)
+        return any(re.search(r'(?<![\w.])' + re.escape(k) + r'(?![\w])', t) for k in keys)
+
+    REJ, RET, FALL = 'reject', 'return', 'fall'
+
+    def comb(a, b):
+        if a == b:
+            return a
+        if must:
+            return FALL if FALL in (a, b) else RET            # rejected only if both reject
+        return REJ if REJ in (a, b) else FALL
+
+    def walk(stmts, related):
+        for s_ in stmts:
+            if isinstance(s_, ast.If):
+                # a guard clause (`if X: raise` followed by the rest, possibly moved into the else by normalisation) does not make the rest depend on X
+                guard_clause = bool(s_.body) and isinstance(s_.body[-1], (ast.Raise, ast.Return, ast.Continue, ast.Break))
+                try:
+                    t = eval_guard(s_.test, bind)
+                    out = walk(s_.body, True) if t else walk(s_.orelse, related if guard_clause else True)
+                except NotEvaluable as e:
+                    if 'incomparable' in str(e) and mentions(s_.test):
+                        return REJ                                  # the test itself raises TypeError for this value
+                    rel = related or mentions(s_.test)
+                    out = comb(walk(s_.body, rel), walk(s_.orelse, related if guard_clause else rel))
+                if out != FALL:
+                    return out
+            elif isinstance(s_, ast.Assert):
+                if mentions(s_.test):
+                    try:
+                        if not eval_guard(s_.test, bind):
+                            return REJ
+                    except NotEvaluable as e:
+                        if 'incomparable' in str(e):
+                            return REJ
+            elif isinstance(s_, ast.Raise):
+                return REJ if related else RET
+            elif isinstance(s_, ast.Return):
+                return RET
+            elif isinstance(s_, (ast.Assign, ast.AnnAssign)) and getattr(s_, 'value', None) is not None:
+                tgts = s_.targets if isinstance(s_, ast.Assign) else [s_.target]
+                try:
+                    v = eval_guard_value(s_.value, bind)
+                    for t in tgts:
+                        env[ast.unparse(t)] = v
+                        keys.add(ast.unparse(t))
+                except NotEvaluable:
+                    for t in tgts:
+                        env.pop(ast.unparse(t), None)                # overwritten by something unknown
+            elif isinstance(s_, (ast.For, ast.While, ast.With)):
+                out = walk(s_.body, related)
+                if out == REJ:
+                    return out
+            elif isinstance(s_, ast.Try):
+                out = walk(s_.body, related)
+                if out == REJ:
+                    return out
+            elif isinstance(s_, ast.Expr) and isinstance(s_.value, ast.Call) and _depth < 3:
+                c = s_.value
+                if isinstance(c.func, ast.Attribute) and isinstance(c.func.value, ast.Name) and c.func.value.id == 'self' and c.func.attr in meths \
+                        and c.func.attr not in seen and not c.args and not c.keywords:
+                    seen.add(c.func.attr)
+                    if abstract_rejects(p, ci, meths[c.func.attr], env, must, _depth + 1, seen):
+                        return REJ
+        return FALL
+
+    return walk(fi.node.body, False) == REJ
+
+
